@@ -5,7 +5,7 @@
    without a bound that runs out of its budget is Err EFuel; [np x] says x is
    neither, [fl_ok x] says the same of a traversal's outcome. *)
 From SQ Require Import Model.Base Model.Varint Model.Record Model.Payload Model.Btree
-     Model.Page Model.Cmp Model.Low Proofs.PayloadP Proofs.TotalP Proofs.TotalLowP.
+     Model.Page Model.Cmp Model.Low Model.High Proofs.PayloadP Proofs.TotalP Proofs.TotalLowP Proofs.TotalHighP.
 
 (* every byte string as a record *)
 Theorem C05_record : forall r, np (parse_record r).
@@ -69,3 +69,39 @@ Theorem C05_master : forall img U, 512 <= U ->
   fl_ok (master (image_pager img U) (openp (image_pager img U) U) (image_pages img U)).
 Proof. exact image_master_ok. Qed.
 Print Assumptions C05_master.
+
+(* the high level API (select.go, indexed_select.go, sqlite.go, key.go; Model/High.v): EVERY byte
+   string as a database file, every page size, EVERY schema record - whether or not it fits
+   the file, hostile sqlite_master texts included - every table / index / column name, key and
+   non-panicking callback: rows and/or an ordinary error, never a panic, never a divergence.
+   (Column positions, the WITHOUT ROWID store order, the primary key positions inside index
+   entries and the lengths of the keys built from them are all covered.) *)
+Theorem C05_select : forall img U, 512 <= U -> forall S (cb : row -> S -> flow * S), (forall r s, fl_ok (cb r s)) ->
+  forall sc table columns s,
+  fl_ok (h_select (image_pager img U) (openp (image_pager img U) U) (image_pages img U) S cb sc table columns s).
+Proof. exact h_select_ok. Qed.
+Print Assumptions C05_select.
+
+Theorem C05_select_rowid : forall img U, 512 <= U -> forall S (cb : row -> S -> flow * S), (forall r s, fl_ok (cb r s)) ->
+  forall sc table rowid columns s,
+  fl_ok (h_select_rowid (image_pager img U) (openp (image_pager img U) U) (image_pages img U) S cb sc table rowid columns s).
+Proof. exact h_select_rowid_ok. Qed.
+Print Assumptions C05_select_rowid.
+
+Theorem C05_indexed_select : forall img U, 512 <= U -> forall S (cb : row -> S -> flow * S), (forall r s, fl_ok (cb r s)) ->
+  forall sc table iname columns s,
+  fl_ok (h_indexed_select (image_pager img U) (openp (image_pager img U) U) (image_pages img U) S cb sc table iname columns s).
+Proof. exact h_indexed_select_ok. Qed.
+Print Assumptions C05_indexed_select.
+
+Theorem C05_indexed_select_eq : forall img U, 512 <= U -> forall S (cb : row -> S -> flow * S), (forall r s, fl_ok (cb r s)) ->
+  forall sc table iname k columns s,
+  fl_ok (h_indexed_select_eq (image_pager img U) (openp (image_pager img U) U) (image_pages img U) S cb sc table iname k columns s).
+Proof. exact h_indexed_select_eq_ok. Qed.
+Print Assumptions C05_indexed_select_eq.
+
+Theorem C05_pk_select : forall img U, 512 <= U -> forall S (cb : row -> S -> flow * S), (forall r s, fl_ok (cb r s)) ->
+  forall sc table k columns s,
+  fl_ok (h_pk_select (image_pager img U) (openp (image_pager img U) U) (image_pages img U) S cb sc table k columns s).
+Proof. exact h_pk_select_ok. Qed.
+Print Assumptions C05_pk_select.
